@@ -247,7 +247,7 @@ static std::string classify_exit(int status, pid_t pid, std::string& prop, std::
 struct PreUnit { Plan plan; std::string mode; UnitPick pick; };
 static thread_local const std::vector<PreUnit>* tl_prelude = nullptr;
 
-static IsoResult exec_isolated(const Plan& plan, Replicas& reps, const std::string& mode, const UnitPick& p, const std::string& focus, bool verbose, int timeout_s = 600) {
+static IsoResult exec_isolated(const Plan& plan, Replicas& reps, const std::string& mode, const UnitPick& p, const std::string& focus, bool verbose, int timeout_s = 300) {
     IsoResult out; int fd[2]; if (pipe(fd) != 0) abort();
     fflush(stdout); fflush(stderr);
     pid_t pid = fork();
@@ -461,7 +461,7 @@ int run_check(const std::string& prop, const std::string& tier, uint64_t seed, i
 
     // unit list, interleaved over workers
     std::vector<Unit> units;
-    for (size_t b = 0; b < spec.batches.size(); b++) for (uint64_t i = 0; i < spec.batches[b].runs; i++) units.push_back({b, i});
+    if (!getenv("JV_ONLY_STATIC")) for (size_t b = 0; b < spec.batches.size(); b++) for (uint64_t i = 0; i < spec.batches[b].runs; i++) units.push_back({b, i});   // (debug aid: JV_ONLY_STATIC=1 runs the static phases alone)
     std::vector<Worker> ws((size_t) workers);
     for (size_t i = 0; i < units.size(); i++) ws[i % ws.size()].todo.push_back(units[i]);
     std::vector<std::pair<Unit, RunResult>> viols; std::vector<std::string> unit_fps;
@@ -500,14 +500,14 @@ int run_check(const std::string& prop, const std::string& tier, uint64_t seed, i
                         else if (line[0] == 'E') { w.done = true; }
                     }
                 }
-                if (!w.done && !dead && w.inflight && tn - w.started > 900) { kill(w.pid, SIGKILL); dead = true; st.counters["watchdog_kills"]++; }
+                if (!w.done && !dead && w.inflight && tn - w.started > 300) { kill(w.pid, SIGKILL); dead = true; st.counters["watchdog_kills"]++; }
                 if (dead || w.done) {
                     int status = 0; waitpid(w.pid, &status, 0); close(w.fd);
                     if (!w.done) {
                         // the worker died: attribute to the unit in flight, restart after it
                         RunResult r; r.violated = true; r.crashed = true;
                         r.crash_info = classify_exit(status, w.pid, r.v.prop, r.v.oracle); r.v.detail = r.crash_info; r.v.step = -1;
-                        if (WIFSIGNALED(status) && WTERMSIG(status) == SIGKILL) { r.v.prop = prop; r.v.oracle = "liveness:run-does-not-terminate"; r.v.detail = "watchdog (900 s)"; }
+                        if (WIFSIGNALED(status) && WTERMSIG(status) == SIGKILL) { r.v.prop = prop; r.v.oracle = "liveness:run-does-not-terminate"; r.v.detail = "watchdog: one run did not finish within 300 s (runs take milliseconds to a few seconds)"; }
                         Unit u = w.next < w.todo.size() ? w.todo[w.next] : Unit{0, 0};
                         st.evaluations++;
                         if (r.v.prop == prop || prop == "C17") viols.push_back({u, r}); else { st.counters["other_property_violation:" + r.v.prop + ":" + r.v.oracle]++; if (getenv("JV_DEBUG")) printf("  debug: worker died at batch %zu run %llu: %s\n", u.b, (unsigned long long) u.idx, r.v.detail.c_str()); }
